@@ -86,6 +86,9 @@ impl FSpec {
     /// offset pending pairs correctly).
     pub fn op_lax(&self, l: &u64, st: &[u32], tt: &[u32]) -> PLax<u32, u64> {
         let kind = if self.op == 4 { (*l % 4) as u8 } else { self.op };
+        if kind == 3 || (kind == 0 && *l % 2 == 1) {
+            return explode(&self.op(l, st, tt));
+        }
         if kind != 1 {
             return self.op(l, st, tt).to_lax();
         }
